@@ -60,6 +60,9 @@ impl RunResult {
     }
     pub fn absorb(&mut self, o: &humsim::sim::Outcome) {
         self.trace_hash = o.trace_hash;
+        for l in &o.trace {
+            eprintln!("TRACE {}", l);
+        }
         self.decisions += o.decisions;
         self.virtual_ns += o.virtual_ns;
         for (k, v) in &o.counters {
@@ -188,7 +191,7 @@ impl SimParams {
         n.eintr_permille = self.eintr_permille;
         n.strict_unspecified = self.strict_unspecified;
         if let Some(c) = self.rx_capacity {
-            n.rx_capacity = c;
+            n.rx_capacity = c.max(1);
         }
         if let Some(s) = &self.default_seg {
             n.default_seg = parse_seg(s);
